@@ -457,6 +457,8 @@ def check_unconditional_contributions(prog: Program, res: Result, rule: str) -> 
                 contributed = [node.value]
             elif isinstance(node, ast.Call) and isinstance(node.func, ast.Attribute) and node.func.attr in ("append", "extend") and node.args:
                 contributed = [node.args[0]]
+            elif isinstance(node, ast.Return) and node.value is not None and not any(isinstance(y, (ast.Yield, ast.YieldFrom)) for y in ast.walk(fi.node)):
+                contributed = [node.value]  # children() written as `return [...]`
             for v in contributed:
                 attrs = {x.attr for x in ast.walk(v) if isinstance(x, ast.Attribute) and isinstance(x.value, ast.Name) and x.value.id == "self"}
                 if not attrs:
@@ -476,6 +478,24 @@ def check_unconditional_contributions(prog: Program, res: Result, rule: str) -> 
                 what = f"{fi.qualname}: contribution of self.{sorted(attrs)[0]} is not conditional on another attribute"
                 # a comprehension that filters what it hands out: the elements dropped are still evaluated at run time
                 filt = [g for c in ast.walk(v) if isinstance(c, (ast.GeneratorExp, ast.ListComp, ast.SetComp)) for g in c.generators if g.ifs and not all(norm(t) == norm(c.elt) or (isinstance(t, ast.Compare) and len(t.ops) == 1 and isinstance(t.ops[0], ast.IsNot) and norm(t.left) == norm(c.elt) and isinstance(t.comparators[0], ast.Constant) and t.comparators[0].value is None) for t in g.ifs)]  # `x for … if x` / `if x is not None`: the element's own presence
+                # a type filter that keeps every expression-typed member of the declared element type is no filter: `[p for p in self.path
+                # if isinstance(p, Path)]` over `self.path: list[Path | int | str]` drops the plain words and indexes only
+                if filt and fi.cls is not None:
+                    kept = []
+                    for g in filt:
+                        t0 = g.ifs[0] if len(g.ifs) == 1 else None
+                        attr = g.iter.attr if isinstance(g.iter, ast.Attribute) and isinstance(g.iter.value, ast.Name) and g.iter.value.id == "self" else None
+                        declared = next((norm(a.annotation, 200) for m_ in fi.cls.methods.values() for a in ast.walk(m_.node) if isinstance(a, ast.AnnAssign) and isinstance(a.target, ast.Attribute) and a.target.attr == attr and isinstance(a.target.value, ast.Name) and a.target.value.id == "self"), None) if attr else None
+                        if isinstance(t0, ast.Call) and isinstance(t0.func, ast.Name) and t0.func.id == "isinstance" and len(t0.args) == 2 and declared:
+                            import re as _re
+
+                            members = set(_re.findall(r"[A-Za-z_][A-Za-z_0-9]*", declared)) - {"list", "List", "tuple", "Sequence", "Union", "Optional", "None"}
+                            plain = {"str", "int", "float", "bool", "bytes"}
+                            tested = set(_re.findall(r"[A-Za-z_][A-Za-z_0-9]*", norm(t0.args[1])))
+                            if members - plain and (members - plain) <= tested:
+                                continue
+                        kept.append(g)
+                    filt = kept
                 if filt:
                     res.fail(rule, file=fi.file, line=getattr(node, "lineno", fi.node.lineno), qualname=fi.qualname, construct=f"{fi.qualname}: self.{sorted(attrs)[0]} contributed through a filter `if {norm(filt[0].ifs[0], 40)}`", message=f"{fi.qualname} hands out `{norm(v, 70)}`: elements of self.{sorted(attrs)[0]} that fail `{norm(filt[0].ifs[0], 50)}` are evaluated when the tag runs but never reach analysis or extraction (a range with variable bounds, a template string with `${{…}}`, a filtered literal)", what=what)
                     continue
